@@ -114,6 +114,21 @@ def zeroCount : Codec Unit :=
 def headers : Codec (List (BlockHeader × Unit)) :=
   listUpTo Gen.Wire.MAX_HEADERS_RESULTS (pair blockHeader zeroCount)
 
+/-- `SendCmpct`: announce octet (0/1), version -/
+def sendCmpct : Codec (Nat × Nat) := pair ((uintLE 1).refine (fun a => decide (a ≤ 1)) .badFlag) (uintLE 8)
+/-- `GetCFilters`, `GetCFHeaders`: filter type, start height, stop hash -/
+def filterRange : Codec (Nat × Nat × Bytes) := pair (uintLE 1) (pair (uintLE 4) (revBytesN 32))
+/-- `CFilter`: filter type, block hash, filter octets -/
+def cfilter : Codec (Nat × Bytes × Bytes) := pair (uintLE 1) (pair (revBytesN 32) varBytes)
+/-- `CFHeaders`: filter type, stop hash, previous filter header, filter hashes -/
+def cfheaders : Codec (Nat × Bytes × Bytes × List Bytes) :=
+  pair (uintLE 1) (pair (revBytesN 32) (pair (revBytesN 32) (listUpTo Gen.Wire.MAX_GETCFHEADERS_SIZE (revBytesN 32))))
+/-- `GetCFCheckpt` -/
+def getcfcheckpt : Codec (Nat × Bytes) := pair (uintLE 1) (revBytesN 32)
+/-- `CFCheckpt`: filter type, stop hash, filter headers (count under the default cap only) -/
+def cfcheckpt : Codec (Nat × Bytes × List Bytes) :=
+  pair (uintLE 1) (pair (revBytesN 32) (listOf Gen.VarInt.MAX_SIZE (revBytesN 32)))
+
 structure Version where
   version : Int
   services : Nat
